@@ -276,6 +276,19 @@ class G:
             L.append(lab + [self.kw("assert")] + self.cond() + [self.kw("report"), '"bad"', self.kw("severity"), self.kw("error"), ";"])
         elif k == 10:
             L.append(([self.ident(self.uid("pc")), ":"] if self.opt(0.3) else []) + [self.ident("p_do"), "(", self.sig(), ",", self.sig(), ")", ";"])
+        elif self.opt(0.5):
+            # multi-line aggregate whose closing `);` carries a trailing comment (glued or not)
+            tgt = [self.sig(), "<="] if self.opt(0.7) else [self.ident("v_tmp"), ":="]
+            if tgt[1] == ":=":
+                tgt = [self.sig(), "<="]
+            L.append(tgt + ["("])
+            n = r.randrange(2, 5)
+            for i in range(n):
+                el = ([str(i), "=>"] if self.opt() else []) + self.literal()[:1]
+                if i < n - 1:
+                    L.append(el + [","] + (["-- element %d" % i] if self.opt(0.2) else []))
+                else:
+                    L.append(el + [")", ";"] + (["-- aggregate done"] if self.opt(0.7) else []))
         else:
             L.append([self.sig(), "<="] + self.aggregate() + [";"])
         return L
@@ -444,11 +457,13 @@ class G:
                 for _ in range(r.randrange(1, 4)):
                     out.append(ind + r.choice(["-- text of the block", "--", "--  indented text", "--| doc", "-- TODO: check"]))
                 out.append(ind + r.choice(edge))
-            if self.style in ("oneline", "messy") and r.random() < (0.35 if self.style == "oneline" else 0.1) and not com and not text.rstrip().endswith(("--",)):
+            if self.style in ("oneline", "messy") and r.random() < (0.35 if self.style == "oneline" else 0.1) and not com and not ln[-1].startswith("--"):
                 pending += text + " "
                 continue
+            if ln[-1].startswith("--"):
+                com = ""  # the line already ends in a comment token
             # split a line at a random token boundary
-            if self.style == "messy" and len(ln) > 3 and r.random() < 0.12:
+            if self.style == "messy" and len(ln) > 3 and r.random() < 0.12 and not ln[-1].startswith("--"):
                 cut = r.randrange(1, len(ln))
                 out.append(ind + pending + self.join_tokens(ln[:cut]))
                 out.append(ind + "  " + self.join_tokens(ln[cut:]) + com)
@@ -473,6 +488,9 @@ class G:
                 s = t
                 continue
             prev = toks[i - 1]
+            if t.startswith("--"):
+                s += r.choice(["", " ", " ", "   "]) + t
+                continue
             tight = t in (";", ",", ")", ".", "'") or prev in ("(", ".", "'") or (t == "(" and prev[0].isalpha() and prev.lower() not in ("port", "generic", "map", "if", "elsif", "is", "process", "array", "when", "and", "or", "not", "while", "report", "assert"))
             if self.style == "tidy":
                 sp = "" if tight else " "
